@@ -77,9 +77,10 @@ type c01Cfg struct {
 
 // a withholding rule: messages of the given step class are not delivered to nodes of the group
 type c01Rule struct {
-	class string // "soft", "cert", "next", "prop", "bundle"
+	class string // "soft", "cert", "next", "prop", "bundle"; "payload" = compound proposal messages only
 	group int
 	until int
+	per1  int // 0: any period, otherwise period+1 of the votes concerned
 }
 
 const (
@@ -175,6 +176,8 @@ type c01Sim struct {
 	lastR  round
 	runIdx int
 	catchupDelay time.Duration
+	lag    int          // C05 directed scenarios: index of the lagging node (-1: none)
+	noLoss bool         // directed scenarios: nothing in flight is lost at the synchrony point
 	hold   map[int]bool // nodes whose payload validation results are held back (directed scenarios)
 	dlObs  []interface{} // C05: (period stepBefore napBefore entropy stepAfter napAfter deadlineAfter dynamicFilter) per deadline timeout
 }
@@ -477,7 +480,16 @@ func (s *c01Sim) blocked(m c01Msg, to int) bool {
 	}
 	cl := m.class()
 	for _, r := range s.cfg.withhold {
-		if r.class == cl && r.group == g && (r.until < 0 || s.step < r.until) {
+		if r.group != g || !(r.until < 0 || s.step < r.until) {
+			continue
+		}
+		if r.class == "payload" {
+			if m.kind == c01MCompound {
+				return true
+			}
+			continue
+		}
+		if r.class == cl && (r.per1 == 0 || (m.kind == c01MVote && int(m.uv.R.Period)+1 == r.per1)) {
 			return true
 		}
 	}
@@ -1304,6 +1316,93 @@ func (s *c01Sim) stepOnce() {
 	}
 }
 
+// quiesce: deliver everything that is deliverable (no timeouts, no adversary moves)
+func (s *c01Sim) quiesce() {
+	for guard := 0; guard < 20000 && s.failed == ""; guard++ {
+		progressed := false
+		for j := range s.nodes {
+			if s.deliverLocal(j) || s.deliverNet(j) {
+				progressed = true
+			}
+		}
+		if !progressed {
+			return
+		}
+	}
+}
+
+// c01LatePayloadRun: the family "late payload after the node's own next vote" x "partition that isolates the
+// late cert-voter(s)" x "heal after the others advanced a period".  N = 4, 5 equal weights, no Byzantine sender,
+// every threshold is reached by N-1 nodes.  Period 0: all proposal-votes arrive, the payloads do not; everybody
+// soft-votes the leader's value v and sees the soft quorum; the deadline passes, the nodes without the payload
+// next-vote bottom (0..2 further steps for some); only then the payload arrives.  The network shows the cert
+// votes of period 0 to ONE node (the victim) only and the next votes to everybody but the victim; the others
+// enter period 1 on the next quorum for bottom and finish with a fresh proposal; then the partition heals.
+// A correct player never cert-votes after its next vote, so the victim sees at most the leader's cert vote.
+func c01LatePayloadRun(ver protocol.ConsensusVersion, rnd *vRand, st *c01Stats, k int) *c01Sim {
+	n := 4 + rnd.Intn(2)
+	stake := uint64(260)
+	if n == 5 {
+		stake = 200
+	}
+	cfg := c01Cfg{n: n, nb: 0, rounds: 1, r0: round(2 + rnd.Intn(30)), mode: "latepay", w: map[string]int{"adv": 0}}
+	for i := 0; i < n; i++ {
+		cfg.stake = append(cfg.stake, stake)
+		cfg.groups = append(cfg.groups, 0)
+	}
+	victim := rnd.Intn(n)
+	cfg.groups[victim] = 1
+	cfg.withhold = []c01Rule{
+		{class: "payload", group: 0, until: -1}, {class: "payload", group: 1, until: -1},
+		{class: "cert", group: 0, until: -1, per1: 1}, // the cert votes of period 0 reach the victim only
+		{class: "next", group: 0, until: -1, per1: 1}, {class: "next", group: 1, until: -1, per1: 1},
+		{class: "bundle", group: 1, until: -1},
+	}
+	s := c01NewSim(ver, rnd, cfg, st)
+	s.runIdx = k
+	s.quiesce()
+	for i := range s.nodes {
+		s.timeout(i) // filter: soft votes
+	}
+	s.quiesce()
+	for i := range s.nodes {
+		s.timeout(i) // deadline: next votes (bottom without the payload)
+	}
+	s.quiesce()
+	for i := range s.nodes {
+		for x := rnd.Intn(8) - 5; x > 0; x-- {
+			s.timeout(i) // some nodes are further down the ladder when the payload comes
+		}
+	}
+	s.quiesce()
+	// the payloads arrive
+	s.cfg.withhold = s.cfg.withhold[2:]
+	s.quiesce()
+	// the next votes reach everybody but the victim: the others leave period 0
+	s.cfg.withhold = []c01Rule{s.cfg.withhold[0], {class: "next", group: 1, until: -1, per1: 1}, {class: "bundle", group: 1, until: -1}}
+	s.quiesce()
+	for rep := 0; rep < 6 && !s.allDone(); rep++ {
+		for i, nd := range s.nodes {
+			if i != victim && !nd.done {
+				s.timeout(i)
+			}
+		}
+		s.quiesce()
+	}
+	// heal
+	s.cfg.withhold = nil
+	s.quiesce()
+	for rep := 0; rep < 4 && !s.allDone(); rep++ {
+		for i, nd := range s.nodes {
+			if !nd.done {
+				s.timeout(i)
+			}
+		}
+		s.quiesce()
+	}
+	return s
+}
+
 // ---------------------------------------------------------------- synchronous phase (C05): virtual time
 
 func (s *c01Sim) popTimed() (c01Timed, bool) {
@@ -1428,7 +1527,7 @@ func (s *c01Sim) synchronise() {
 		}
 		for _, m := range inbox {
 			s.lost(j, m)
-			if s.rnd.Intn(3) == 0 {
+			if !s.noLoss && s.rnd.Intn(3) == 0 {
 				continue // lost during the asynchronous prefix
 			}
 			s.send(m.from, j, m)
@@ -1725,6 +1824,7 @@ func TestVerifC01(t *testing.T) {
 	defer vsmDevNull()()
 	n := vEnvInt("VERIF_C01_N", 120)
 	maxTrace := vEnvInt("VERIF_C01_TRACE", 420)
+	search := os.Getenv("VERIF_SEARCH") != ""
 	rnd := vNewRand(0xc01)
 	out := vOpen("cases_c01.txt")
 	defer out.Close()
@@ -1732,13 +1832,21 @@ func TestVerifC01(t *testing.T) {
 	vers := c01Versions()
 	for k := 0; k < n; k++ {
 		over := k%12 == 11
-		cfg := c01RandomCfg(rnd, k, over)
 		c01Debug = os.Getenv("VERIF_C01_DEBUG") != "" && vEnvInt("VERIF_C01_DEBUGRUN", k) == k
-		s := c01NewSim(vers[k%len(vers)], rnd, cfg, st)
-		s.runIdx = k
+		var s *c01Sim
+		var cfg c01Cfg
+		// directed family (light in the default stream, 1 run in 3 during the driver's violation search)
+		if (search && k%3 == 1) || (!search && k%20 == 7) {
+			s = c01LatePayloadRun(vers[k%len(vers)], rnd, st, k)
+			cfg = s.cfg
+		} else {
+			cfg = c01RandomCfg(rnd, k, over)
+			s = c01NewSim(vers[k%len(vers)], rnd, cfg, st)
+			s.runIdx = k
+			s.runAsync(cfg.steps, maxTrace)
+		}
 		st.runs++
 		st.modes[cfg.mode]++
-		s.runAsync(cfg.steps, maxTrace)
 		if s.failed != "" {
 			t.Fatalf("c01 run %d (%s): %s", k, cfg.mode, s.failed)
 		}
